@@ -496,11 +496,7 @@ func (f *c11Flow) provClosureParam(fn *ssa.Function, idx int, depth int, seen ma
 		for _, ref := range *mc.Referrers() {
 			call, ok := ref.(*ssa.Call)
 			if !ok || CalleeName(call) != "(*sync.Map).Range" || len(call.Call.Args) != 2 || call.Call.Args[1] != ssa.Value(mc) {
-				if _, dbg := ref.(*ssa.DebugRef); !dbg {
-					add("unknown", "parameter of a closure used other than as a sync.Map.Range callback in "+FnName(fn.Parent()))
-					found = true
-				}
-				continue
+				continue // other uses are judged by provClosureViaDynamicCalls
 			}
 			fa, ok := call.Call.Args[0].(*ssa.FieldAddr)
 			if !ok {
@@ -530,7 +526,117 @@ func (f *c11Flow) provClosureParam(fn *ssa.Function, idx int, depth int, seen ma
 		}
 	})
 	if !found {
+		f.provClosureViaDynamicCalls(fn, idx, depth, seen, out)
+	}
+}
+
+// provClosureViaDynamicCalls: the closure is kept as a function value (in a
+// map / slice / local used as a dispatch table) and invoked through a dynamic
+// call in the enclosing function.  Every dynamic call of the enclosing function
+// (and its other closures) whose signature is identical may be that invocation;
+// its argument is a possible value of the parameter.  The closure value must
+// not escape otherwise.
+func (f *c11Flow) provClosureViaDynamicCalls(fn *ssa.Function, idx int, depth int, seen map[ssa.Value]bool, out *[]c11Leaf) {
+	add := func(kind, what string) { *out = append(*out, c11Leaf{Kind: kind, What: what}) }
+	par := fn.Parent()
+	escapes := ""
+	nmc := 0
+	AllInstrs(par, func(in ssa.Instruction) {
+		mc, ok := in.(*ssa.MakeClosure)
+		if !ok || mc.Fn != fn {
+			return
+		}
+		nmc++
+		var follow func(v ssa.Value, d int)
+		follow = func(v ssa.Value, d int) {
+			if v.Referrers() == nil || d > 3 {
+				return
+			}
+			for _, ref := range *v.Referrers() {
+				switch u := ref.(type) {
+				case *ssa.DebugRef:
+				case *ssa.MapUpdate:
+					if u.Value != v {
+						escapes = "used as a map key"
+					}
+				case *ssa.Store:
+					if u.Val != v {
+						escapes = "used as an address"
+					}
+				case *ssa.ChangeType, *ssa.MakeInterface, *ssa.Phi:
+					if _, isIface := u.(*ssa.MakeInterface); isIface {
+						escapes = "converted to an interface"
+					} else {
+						follow(u.(ssa.Value), d+1)
+					}
+				case ssa.CallInstruction:
+					if u.Common().Value != v {
+						escapes = "passed to " + CalleeName(u)
+					}
+				default:
+					escapes = "used by " + fmt.Sprintf("%T", ref)
+				}
+			}
+		}
+		follow(mc, 0)
+	})
+	// a literal without free variables is a plain function value (no MakeClosure): look at the instructions using it
+	AllInstrs(par, func(in ssa.Instruction) {
+		for _, op := range in.Operands(nil) {
+			if *op != ssa.Value(fn) {
+				continue
+			}
+			nmc++
+			switch u := in.(type) {
+			case *ssa.MapUpdate:
+				if u.Value != ssa.Value(fn) {
+					escapes = "used as a map key"
+				}
+			case *ssa.Store:
+				if u.Val != ssa.Value(fn) {
+					escapes = "used as an address"
+				}
+			case *ssa.MakeClosure:
+				nmc-- // its own closure creation, handled above
+			case *ssa.ChangeType, *ssa.Phi, *ssa.DebugRef:
+			case ssa.CallInstruction:
+				if u.Common().Value != ssa.Value(fn) {
+					escapes = "passed to " + CalleeName(u)
+				}
+			default:
+				escapes = "used by " + fmt.Sprintf("%T", in)
+			}
+		}
+	})
+	if nmc == 0 {
 		add("unknown", "parameter of closure "+FnName(fn)+" (no binding site found)")
+		return
+	}
+	if escapes != "" {
+		add("unknown", "parameter of closure "+FnName(fn)+", whose function value is "+escapes)
+		return
+	}
+	n := 0
+	scope := append([]*ssa.Function{par}, Anons(par)...)
+	for _, g := range scope {
+		for _, call := range Calls(g, func(string) bool { return true }) {
+			cc := call.Common()
+			if cc.IsInvoke() || StaticCallee(call) != nil {
+				continue
+			}
+			if _, isBuiltin := cc.Value.(*ssa.Builtin); isBuiltin {
+				continue
+			}
+			sig, ok := cc.Value.Type().Underlying().(*types.Signature)
+			if !ok || !types.Identical(sig, fn.Signature) || idx >= len(cc.Args) {
+				continue
+			}
+			n++
+			f.prov(cc.Args[idx], call.(ssa.Instruction), depth+1, seen, out)
+		}
+	}
+	if n == 0 {
+		add("unknown", "parameter of closure "+FnName(fn)+": it is stored as a function value but no dynamic call with its signature is found")
 	}
 }
 
